@@ -126,7 +126,7 @@ def main():
         "setup_cmd": "./build.sh plain race piko",
         "hooks": {
             "guard": "verif (Go build tag) + go build -overlay; no hook is committed to the repository",
-            "enable": "./build.sh generates build/<tag>/overlay.json mapping non-existent paths zz_verif_export.go in pkg/gossip, server, server/gossip, server/upstream, server/proxy, server/admin to the //go:build verif shim files under /verif/overlay, and builds the harness with -overlay ... -tags verif against the current working tree of /repo (replace directive)",
+            "enable": "./build.sh generates build/<tag>/overlay.json mapping non-existent paths zz_verif_export.go in pkg/gossip, server, server/gossip, server/upstream, server/proxy, server/admin to the //go:build verif shim files under /verif/overlay, and builds the harness with -overlay ... -tags verif against the current working tree of /repo (replace directive). Thorough tier of C05/C20 additionally runs failpoint_leg.sh: gofail v0.2.0 failpoints inserted into a temporary COPY of the working tree (never into /repo)",
             "baseline_off_cmd": "cd /repo && GOFLAGS=-mod=mod GOPROXY=off go test -vet=off -count=1 -timeout 25m ./...",
             "source_commits": [],
             "add_only": True,
